@@ -820,3 +820,7 @@ package table
 //@ func (*RoutingPolicy).DeletePolicy$1
 //@   claims step
 //@   loop 1 step (__iter == 0 ==> dir == POLICY_DIRECTION_IMPORT) && (__iter == 1 ==> dir == POLICY_DIRECTION_EXPORT)
+// (a lookup: changes nothing)
+//@ func (*RoutingPolicy).getPolicy
+//@   claims frame
+//@   modifies nothing
